@@ -7,7 +7,7 @@
 use graphrs::algorithms::centrality::{betweenness, closeness, degree, eigenvector};
 use graphrs::algorithms::shortest_path::dijkstra;
 use graphrs::algorithms::{cluster, components};
-use graphrs::{Edge, Graph, GraphSpecs, MissingNodeStrategy, Node};
+use graphrs::{Edge, EdgeDedupeStrategy, Graph, GraphSpecs, MissingNodeStrategy, Node};
 use std::panic::{catch_unwind, AssertUnwindSafe};
 use std::sync::atomic::{AtomicU64, Ordering};
 use std::sync::{Arc, Mutex};
@@ -22,12 +22,17 @@ struct Desc {
     directed: bool,
     multi: bool,
     loops: bool,
+    // the edges the graph holds after the history (what the oracles compare with)
     edges: Vec<(usize, usize, Option<f64>)>,
+    // the add_edge calls of the history, in order (a superset of `edges` when a duplicate is ignored or replaces a stored edge)
+    raw: Vec<(usize, usize, Option<f64>)>,
+    // 0: duplicates are an error (no duplicate in `raw`), 1: KeepFirst, 2: KeepLast
+    dedupe: u8,
 }
 impl Desc {
     fn show(&self) -> String {
         let es: Vec<String> = self
-            .edges
+            .raw
             .iter()
             .map(|(u, v, w)| match w {
                 None => format!("[\"{}\",\"{}\",null]", NAMES[*u], NAMES[*v]),
@@ -36,8 +41,8 @@ impl Desc {
             })
             .collect();
         format!(
-            "{{\"nodes\":{},\"directed\":{},\"multi_edges\":{},\"self_loops\":{},\"edges\":[{}]}}",
-            self.n, self.directed, self.multi, self.loops, es.join(",")
+            "{{\"nodes\":{},\"directed\":{},\"multi_edges\":{},\"self_loops\":{},\"duplicates\":\"{}\",\"add_edge_calls\":[{}]}}",
+            self.n, self.directed, self.multi, self.loops, ["Error", "KeepFirst", "KeepLast"][self.dedupe as usize], es.join(",")
         )
     }
     fn build(&self) -> Option<Graph<&'static str, ()>> {
@@ -45,11 +50,12 @@ impl Desc {
         specs.multi_edges = self.multi;
         specs.self_loops = self.loops;
         specs.missing_node_strategy = MissingNodeStrategy::Error;
+        specs.edge_dedupe_strategy = match self.dedupe { 0 => EdgeDedupeStrategy::Error, 1 => EdgeDedupeStrategy::KeepFirst, _ => EdgeDedupeStrategy::KeepLast };
         let mut g: Graph<&'static str, ()> = Graph::new(specs);
         for i in 0..self.n {
             g.add_node(Node::from_name(NAMES[i]));
         }
-        for (u, v, w) in &self.edges {
+        for (u, v, w) in &self.raw {
             let e = match w {
                 None => Edge::new(NAMES[*u], NAMES[*v]),
                 Some(x) => Edge::with_weight(NAMES[*u], NAMES[*v], *x),
@@ -109,12 +115,23 @@ fn all_descs() -> Vec<Desc> {
                                 .map(|(i, (u, v))| (*u, *v, match weighting { 0 => None, 1 => Some(pattern[i % 4]), 2 => Some(positive[i % 4]), 3 => Some(positive[(i + 1) % 4]), 4 => Some(positive[(i + 3) % 4]), _ => Some(small[i % 4]) }))
                                 .collect();
                             if weighting >= 2 && s.is_empty() { continue; }
-                            out.push(Desc { n, directed, multi, loops, edges: edges.clone() });
+                            out.push(Desc { n, directed, multi, loops, edges: edges.clone(), raw: edges.clone(), dedupe: 0 });
                             if multi && !edges.is_empty() {
                                 // a parallel copy of the first edge
                                 let e0 = edges[0];
                                 edges.push(e0);
-                                out.push(Desc { n, directed, multi, loops, edges });
+                                out.push(Desc { n, directed, multi, loops, edges: edges.clone(), raw: edges, dedupe: 0 });
+                            } else if !multi && !edges.is_empty() && weighting >= 1 && weighting <= 2 {
+                                // the first pair added once more at the end with another weight (for undirected graphs in the other orientation):
+                                // ignored under KeepFirst, replacing the stored edge under KeepLast
+                                let (u0, v0, _) = edges[0];
+                                let dup = if directed { (u0, v0, Some(0.5)) } else { (v0, u0, Some(0.5)) };
+                                let mut raw = edges.clone();
+                                raw.push(dup);
+                                out.push(Desc { n, directed, multi, loops, edges: edges.clone(), raw: raw.clone(), dedupe: 1 });
+                                let mut kept = edges.clone();
+                                kept[0] = (u0, v0, Some(0.5));
+                                out.push(Desc { n, directed, multi, loops, edges: kept, raw, dedupe: 2 });
                             }
                         }
                     }
